@@ -1,4 +1,5 @@
 mod budget;
+mod commitorder;
 mod crash;
 mod formats;
 mod freelist;
@@ -31,6 +32,7 @@ fn main() {
         "rel-run" => relx::run(&args),
         "join-obs" => joinobs::run(&args),
         "crash-run" => crash::run(&args),
+        "commit-order" => commitorder::run(&args),
         "wal-faults" => wal::fault_sweep(&args),
         other => {
             eprintln!("unknown subcommand {}", other);
